@@ -23,7 +23,13 @@ pub struct Variant {
     pub key_scheme: u32,
     pub val_scheme: u32,
     pub filter_names: Vec<String>,
+    /// manual_journal_persist of the keyspaces (insert / remove / clear)
     pub manual_persist: bool,
+    /// manual_journal_persist of the database (batches / transactions)
+    pub manual_db: bool,
+    /// the database is opened as a SingleWriterTxDatabase and every Batch step commits as a write
+    /// transaction (with the step's durability level)
+    pub tx_batches: bool,
 }
 
 impl Variant {
@@ -35,13 +41,15 @@ impl Variant {
             val_scheme: ((i / 3) % 4) as u32,
             filter_names: filter_names.to_vec(),
             manual_persist: false,
+            manual_db: false,
+            tx_batches: false,
         }
     }
 
     pub fn describe(&self) -> Value {
         json!({"kv_sep": self.kv_sep, "journal_compression": self.journal_compression,
                "key_scheme": self.key_scheme, "val_scheme": self.val_scheme,
-               "filter_names": self.filter_names, "manual_persist": self.manual_persist})
+               "filter_names": self.filter_names, "manual_persist_keyspace": self.manual_persist, "manual_persist_database": self.manual_db})
     }
 }
 
@@ -56,6 +64,8 @@ struct KeyFilter {
     k1: Vec<u8>,
     k2: Vec<u8>,
     replacement: Vec<u8>,
+    /// kind "B": k1 is removed only if its value is an odd model number (the filter reads the value)
+    by_value: Option<Concretizer>,
 }
 
 impl fjall::compaction::filter::CompactionFilter for KeyFilter {
@@ -67,7 +77,17 @@ impl fjall::compaction::filter::CompactionFilter for KeyFilter {
         use fjall::compaction::filter::Verdict;
         let key: &[u8] = item.key();
         if key == &self.k1[..] {
-            Ok(Verdict::Remove)
+            match &self.by_value {
+                None => Ok(Verdict::Remove),
+                Some(conc) => {
+                    let v = item.value()?;
+                    if conc.unval(&v) % 2 == 1 {
+                        Ok(Verdict::Remove)
+                    } else {
+                        Ok(Verdict::Keep)
+                    }
+                }
+            }
         } else if key == &self.k2[..] {
             Ok(Verdict::ReplaceValue(self.replacement.clone().into()))
         } else {
@@ -80,6 +100,7 @@ struct KeyFilterFactory {
     k1: Vec<u8>,
     k2: Vec<u8>,
     replacement: Vec<u8>,
+    by_value: Option<Concretizer>,
 }
 
 impl fjall::compaction::filter::Factory for KeyFilterFactory {
@@ -95,6 +116,7 @@ impl fjall::compaction::filter::Factory for KeyFilterFactory {
             k1: self.k1.clone(),
             k2: self.k2.clone(),
             replacement: self.replacement.clone(),
+            by_value: self.by_value.clone(),
         })
     }
 }
@@ -104,6 +126,7 @@ impl fjall::compaction::filter::Factory for KeyFilterFactory {
 pub struct World {
     pub dir: PathBuf,
     pub db: Option<Database>,
+    pub txdb: Option<fjall::SingleWriterTxDatabase>,
     pub ks: BTreeMap<String, Keyspace>,
     pub held: BTreeMap<u64, Keyspace>,
     pub views: BTreeMap<u64, Snapshot>,
@@ -116,10 +139,14 @@ pub struct World {
     pub seen_filtered: BTreeMap<(String, u64), (bool, u64)>,
 }
 
-pub fn open_db(dir: &Path, variant: &Variant, conc: &Concretizer) -> fjall::Result<Database> {
-    let mut b = Database::builder(dir)
+macro_rules! configured_open {
+    ($builder:expr, $variant:ident, $conc:ident) => {{
+        let variant = $variant;
+        let conc = $conc;
+
+    let mut b = $builder
         .worker_threads_unchecked(0)
-        .manual_journal_persist(variant.manual_persist);
+        .manual_journal_persist(variant.manual_db);
     b = b.journal_compression(if variant.journal_compression {
         fjall::CompressionType::Lz4
     } else {
@@ -131,6 +158,7 @@ pub fn open_db(dir: &Path, variant: &Variant, conc: &Concretizer) -> fjall::Resu
         let k2 = conc.key(2);
         let replacement = conc.val(FILTERED_MODEL_VAL);
         let replacement_b = conc.val(FILTERED_MODEL_VAL_B);
+        let conc_f = conc.clone();
         b = b.with_compaction_filter_factories(Arc::new(move |name: &str| {
             if names.iter().any(|n| n == name) {
                 // every name gets its OWN filter (both factories report the same name()):
@@ -141,12 +169,14 @@ pub fn open_db(dir: &Path, variant: &Variant, conc: &Concretizer) -> fjall::Resu
                         k1: k1.clone(),
                         k2: k2.clone(),
                         replacement: replacement.clone(),
+                        by_value: None,
                     })
                 } else {
                     Arc::new(KeyFilterFactory {
                         k1: k2.clone(),
                         k2: k1.clone(),
                         replacement: replacement_b.clone(),
+                        by_value: Some(conc_f.clone()),
                     })
                 };
                 Some(f)
@@ -156,6 +186,17 @@ pub fn open_db(dir: &Path, variant: &Variant, conc: &Concretizer) -> fjall::Resu
         }));
     }
     b.open()
+    }};
+}
+
+pub fn open_db(dir: &Path, variant: &Variant, conc: &Concretizer) -> fjall::Result<Database> {
+    configured_open!(Database::builder(dir), variant, conc)
+}
+
+/// The same configuration through the single-writer transactional database (its inner
+/// `Database` is what the rest of the harness drives; batches then commit as transactions).
+pub fn open_db_tx(dir: &Path, variant: &Variant, conc: &Concretizer) -> fjall::Result<fjall::SingleWriterTxDatabase> {
+    configured_open!(fjall::SingleWriterTxDatabase::builder(dir), variant, conc)
 }
 
 pub fn ks_options(variant: &Variant) -> KeyspaceCreateOptions {
@@ -171,10 +212,16 @@ pub fn ks_options(variant: &Variant) -> KeyspaceCreateOptions {
 impl World {
     pub fn new(dir: PathBuf, variant: Variant, seed: u64, nkeys: u64) -> fjall::Result<Self> {
         let conc = Concretizer::new(variant.key_scheme, variant.val_scheme, seed);
-        let db = open_db(&dir, &variant, &conc)?;
+        let (db, txdb) = if variant.tx_batches {
+            let t = open_db_tx(&dir, &variant, &conc)?;
+            (t.inner().clone(), Some(t))
+        } else {
+            (open_db(&dir, &variant, &conc)?, None)
+        };
         Ok(Self {
             dir,
             db: Some(db),
+            txdb,
             ks: BTreeMap::new(),
             held: BTreeMap::new(),
             views: BTreeMap::new(),
@@ -201,6 +248,7 @@ impl World {
         self.views.clear();
         self.held.clear();
         self.ks.clear();
+        self.txdb = None;
         self.db = None;
     }
 
@@ -208,7 +256,14 @@ impl World {
         self.close();
         // a journal written under one compression setting must be readable under the other
         self.variant.journal_compression = !self.variant.journal_compression;
-        let db = open_db(&self.dir, &self.variant, &self.conc).map_err(|e| format!("{e:?}"))?;
+        let db = if self.variant.tx_batches {
+            let t = open_db_tx(&self.dir, &self.variant, &self.conc).map_err(|e| format!("{e:?}"))?;
+            let d = t.inner().clone();
+            self.txdb = Some(t);
+            d
+        } else {
+            open_db(&self.dir, &self.variant, &self.conc).map_err(|e| format!("{e:?}"))?
+        };
         for name in db.list_keyspace_names() {
             // opening an existing keyspace: options passed here must be ignored
             let k = db
@@ -273,8 +328,37 @@ impl World {
                 let k = self.get_ks(act["name"].as_str().unwrap())?;
                 k.remove(self.conc.key(act["k"].as_u64().unwrap())).map_err(e)
             }
+            "Batch" if self.txdb.is_some() => {
+                // the batch as a write transaction of the single-writer database
+                let txdb = self.txdb.as_ref().unwrap();
+                let mut tx = txdb.write_tx();
+                match act["dur"].as_str().unwrap_or("none") {
+                    "Buffer" => tx = tx.durability(Some(fjall::PersistMode::Buffer)),
+                    "SyncData" => tx = tx.durability(Some(fjall::PersistMode::SyncData)),
+                    "SyncAll" => tx = tx.durability(Some(fjall::PersistMode::SyncAll)),
+                    _ => {}
+                }
+                for it in act["items"].as_array().unwrap() {
+                    let name = it["name"].as_str().unwrap();
+                    self.get_ks(name)?;
+                    let tk = txdb.keyspace(name, KeyspaceCreateOptions::default).map_err(e)?;
+                    let key = self.conc.key(it["k"].as_u64().unwrap());
+                    if it["del"].as_bool().unwrap_or(false) {
+                        tx.remove(&tk, key);
+                    } else {
+                        tx.insert(&tk, key, self.conc.val(it["v"].as_u64().unwrap()));
+                    }
+                }
+                tx.commit().map_err(e)
+            }
             "Batch" => {
                 let mut b = self.db().batch();
+                match act["dur"].as_str().unwrap_or("none") {
+                    "Buffer" => b = b.durability(Some(fjall::PersistMode::Buffer)),
+                    "SyncData" => b = b.durability(Some(fjall::PersistMode::SyncData)),
+                    "SyncAll" => b = b.durability(Some(fjall::PersistMode::SyncAll)),
+                    _ => {}
+                }
                 for it in act["items"].as_array().unwrap() {
                     let k = self.get_ks(it["name"].as_str().unwrap())?;
                     let key = self.conc.key(it["k"].as_u64().unwrap());
@@ -283,6 +367,27 @@ impl World {
                     } else {
                         b.insert(k, key, self.conc.val(it["v"].as_u64().unwrap()));
                     }
+                }
+                b.commit().map_err(e)
+            }
+            "StaleBatch" => {
+                // one item through the kept handle of a deleted keyspace, one for a live keyspace
+                let id = act["id"].as_u64().unwrap();
+                let stale = self.held.get(&id).cloned().ok_or_else(|| format!("no kept handle for keyspace {id}"))?;
+                let mut b = self.db().batch();
+                let key = self.conc.key(act["k"].as_u64().unwrap());
+                if act["del"].as_bool().unwrap_or(false) {
+                    b.remove(&stale, key);
+                } else {
+                    b.insert(&stale, key, self.conc.val(act["v"].as_u64().unwrap()));
+                }
+                let it = &act["item"];
+                let k = self.get_ks(it["name"].as_str().unwrap())?;
+                let key = self.conc.key(it["k"].as_u64().unwrap());
+                if it["del"].as_bool().unwrap_or(false) {
+                    b.remove(k, key);
+                } else {
+                    b.insert(k, key, self.conc.val(it["v"].as_u64().unwrap()));
                 }
                 b.commit().map_err(e)
             }
@@ -788,7 +893,14 @@ fn filtered_form(kind: &str, k: u64, v: u64) -> u64 {
         return 0;
     }
     match (kind, k) {
-        ("A", 1) | ("B", 2) => 0,
+        ("A", 1) => 0,
+        ("B", 2) => {
+            if v % 2 == 1 {
+                0
+            } else {
+                v
+            }
+        }
         ("A", 2) => FILTERED_MODEL_VAL,
         ("B", 1) => FILTERED_MODEL_VAL_B,
         _ => v,
